@@ -13,6 +13,7 @@ type c13Case struct {
 	Prefix []int `json:"prefix"` // indices into c13PrefixItems
 	Fault  int   `json:"fault"`
 	Wrap   int   `json:"wrap"`  // 0 top level, 1 inside an @if body, 2 inside an @each body, 3 inside the @else branch
+	Pct    bool  `json:"pct,omitempty"` // the template directory's name contains a per cent sign followed by a letter
 	Where  int   `json:"where"` // 0 string API, 1 page file, 2 layout file, 3 component file, 4 page that uses a layout (fault in the page's insert)
 }
 
@@ -65,6 +66,9 @@ var c13Faults = []c13Fault{
 	// the offending token is itself a string that spans lines: the error names the line on which it ends
 	{"unknown-property-multi-line-string", "{{ {a: 1}[\"x\ny\"] }}", 1, false, ""},
 	{"unexpected-multi-line-string", "{{ 1 \"p\n\nq\" }}", 2, true, ""},
+	// a call whose argument list spans lines: the unknown name (and the call that rejects its argument) stands on the first one
+	{"unknown-function-multi-line-arguments", "{{ \"s\".zz(1,\n2\n) }}", 0, false, ""},
+	{"mistyped-argument-multi-line-arguments", "{{ \"s\".repeat(\"x\"\n\n) }}", 0, false, ""},
 	// faults of a slot passed to a component (the component file comp9 has several lines of its own)
 	{"undefined-slot", `@component("comp9")@slot("zz")x@end@end`, 0, true, "slot"},
 	{"slot-passed-twice", `@component("comp9")@slot("n")x@end@slot("n")y@end@end`, 0, true, "slot"},
@@ -103,6 +107,9 @@ func c13Check(cs c13Case) (ok bool, sig, expected, observed string) {
 		o = runString(src, nil)
 	default:
 		t := Tree{Dir: "t", Ext: ".tw", Files: map[string]string{"other.tw": "other"}}
+		if cs.Pct {
+			t.Dir = "20%discount/50%s"
+		}
 		faultFile := "index.tw"
 		switch cs.Where {
 		case 1:
@@ -228,18 +235,23 @@ func c13Run(c *Ctx) {
 						if where >= 2 && k == maxPrefix && !c.Thorough() && (fi+wrap)%2 == 1 {
 							continue
 						}
-						cs := c13Case{Prefix: pre, Fault: fi, Wrap: wrap, Where: where}
-						order++
-						c.Trace(cs)
-						ok, sig, exp, obs := c13Check(cs)
-						c.Evals(1)
-						src, _ := c13Build(cs)
-						c.Case(strings.Count(src[:strings.LastIndex(src, f.src)], "\n") > 0)
-						if order%997 == 1 {
-							c.Sample(map[string]any{"case": cs, "expected": clip(exp, 300), "observed": clip(obs, 200)})
-						}
-						if !ok {
-							c.Report(sig, int64(k)*100000000+order%100000000, cs, exp, obs, "")
+						for _, pct := range []bool{false, true} {
+							if pct && (where == 0 || k > 1) {
+								continue // per cent signs in the directory name: file cases with at most one prefix item
+							}
+							cs := c13Case{Prefix: pre, Fault: fi, Wrap: wrap, Where: where, Pct: pct}
+							order++
+							c.Trace(cs)
+							ok, sig, exp, obs := c13Check(cs)
+							c.Evals(1)
+							src, _ := c13Build(cs)
+							c.Case(strings.Count(src[:strings.LastIndex(src, f.src)], "\n") > 0)
+							if order%997 == 1 {
+								c.Sample(map[string]any{"case": cs, "expected": clip(exp, 300), "observed": clip(obs, 200)})
+							}
+							if !ok {
+								c.Report(sig, int64(k)*100000000+order%100000000, cs, exp, obs, "")
+							}
 						}
 					}
 				}
@@ -255,7 +267,7 @@ func init() {
 	p := &Property{
 		ID:    "C13",
 		Level: "exploration",
-		Rule: "bounded-exhaustive: every prefix that is a sequence of <=k items from 12 multi-line token kinds (text with LF / CRLF, strings containing newlines, a two-line comment, {{ and }} on separate lines, a directive header broken across lines, a multi-line @if and @each, an escaped brace) followed by one fault written on a single line (13 kinds: unknown identifier, type mismatch, unknown function/property, division/modulo by zero, illegal character (also right after a newline), unexpected token, missing operand, @each over a non-array, undefined insert, unknown component), at top level / inside @if / @each / @else bodies, through the string API, as a page file, inside a layout, inside a component, and inside an insert of a page that uses a layout. " +
+		Rule: "bounded-exhaustive: every prefix that is a sequence of <=k items from 12 multi-line token kinds (text with LF / CRLF, strings containing newlines, a two-line comment, {{ and }} on separate lines, a directive header broken across lines, a multi-line @if and @each, an escaped brace) followed by one fault written on a single line (13 kinds: unknown identifier, type mismatch, unknown function/property, division/modulo by zero, illegal character (also right after a newline), unexpected token, missing operand, @each over a non-array, undefined insert, unknown component), at top level / inside @if / @each / @else bodies, through the string API, as a page file, inside a layout, inside a component, and inside an insert of a page that uses a layout; the file cases with at most one prefix item also in a template directory whose name contains per cent signs. " +
 			"The expected line is 1 + the number of newlines before the fault in its own file (known by construction); the path is compared for load-time faults and faults in the page itself. Non-trivial: at least one newline precedes the fault",
 		Bounds: func(tier string) map[string]any {
 			if tier == "thorough" {
